@@ -112,7 +112,16 @@ def _c07(M, capbits, climbM):
             H("ZZ_C07_Access", params=P, reach=["access-done"], solver="cvc5", bounds=b),
             H("ZZ_C07_Update", params=P, reach=["update-done"], solver="cvc5", bounds=b + ", new weight up to 2^60 (self-eviction above capacity)"),
             H("ZZ_C07_Remove", params=P, reach=["remove-done"], solver="cvc5", bounds=b),
-            H("ZZ_C07_Climb", params={"M": climbM, "CAPBITS": capbits}, reach=["climb-done"], solver="cvc5", bounds="<=%d entries per region; float32 step/hr and sample counts symbolic; capacity <= 2^40" % climbM)]
+            H("ZZ_C07_Climb", params={"M": climbM, "CAPBITS": capbits}, reach=["climb-done"], solver="cvc5", bounds="<=%d entries per region; float32 step/hr and sample counts symbolic; capacity <= 2^40" % climbM)] + _c07_shapes(capbits)
+
+def _c07_shapes(capbits):
+    out = []
+    for (nw, npb, npt) in [(2, 0, 0), (0, 2, 0), (0, 0, 2), (3, 0, 0), (0, 3, 0), (2, 2, 0), (0, 2, 2), (2, 0, 2), (2, 1, 1)]:
+        P = {"NW": nw, "NPB": npb, "NPT": npt, "CAPBITS": capbits}
+        b = "pinned shape window/probation/protected = %d/%d/%d entries" % (nw, npb, npt)
+        out.append(H("ZZ_C07_Set", params=P, reach=["set-done"], solver="cvc5", bounds=b))
+        out.append(H("ZZ_C07_Update", params=P, reach=["update-done"], solver="cvc5", bounds=b))
+    return out
 
 PROPS["C07"] = {
     "title": "policy structure and bounds",
@@ -120,7 +129,7 @@ PROPS["C07"] = {
     "level_text": "Inductive bounded model checking of the real policy code: the pre-state is an arbitrary state satisfying the written-down representation invariant (region lists built with the real list code, symbolic weights, capacities, adaptive split, sample counters, float32 climber state); one real operation is executed and cvc5 decides, for all values, that the invariant, the capacity bound, capacity conservation, no unsigned wrap and exact eviction callbacks hold afterwards; an instruction budget turns non-terminating eviction into a violation. Shapes are bounded (entries per region), so this is bounded model checking, not a proof.",
     "level_note": "Trusted: go/ssa, executor encoding (BV + IEEE float32 via the FloatingPoint theory), cvc5. Cuts (recorded): admit() is an arbitrary boolean in the step lemmas (its direction is checked separately on the real sketch), CountMinSketch.Add is skipped (C17). Set/Access lemmas assume the adaptive-resize trigger is off; climb+resizeWindow have their own lemma from the same invariant, so their composition is covered.",
     "assumptions": ["invariant I (DESIGN.md §4 C07) as pre-state", "weights 1..capacity for resident entries", "admission outcome arbitrary (over-approximation)"],
-    "outside_bound": ["more than M entries per region (quick 1, thorough 2)", "capacity above 2^60 (2^40 for the climber lemma)"],
+    "outside_bound": ["shapes other than all shapes with <= M entries per region (quick 1, thorough 2) plus nine pinned shapes with up to 4 entries", "capacity above 2^60 (2^40 for the climber lemma)"],
     "quick": _c07(1, 60, 1),
     "thorough": _c07(2, 32, 1) + [H("ZZ_C07_Set", params={"M": 1, "CAPBITS": 16}, reach=["set-done"], bounds="cross-check with z3 (capacity <= 2^16)"),
                                   H("ZZ_C07_Update", params={"M": 1, "CAPBITS": 16}, reach=["update-done"], bounds="cross-check with z3 (capacity <= 2^16)")],
@@ -204,6 +213,7 @@ PROPS["C01"] = {
               H("ZZ_C01_Linearizable", params={"PRE": 0, "POOL": 1}, reach=["history-complete"], bounds="entry pool on"),
               H("ZZ_C01_Linearizable", params={"PRE": 0, "LOADING": 1}, reach=["history-complete"], bounds="loading cache"),
               H("ZZ_C01_Linearizable", params={"PRE": 0, "DOOR": 1}, reach=["history-complete"], bounds="doorkeeper on"),
+              H("ZZ_C13_LoadingWithWriter", params={"PRE": 1}, reach=["both-finished"], bounds="loading Get vs Set/Delete of the same key: load-and-store atomic with respect to writers"),
               H("ZZ_C01_RBMutex", params={"READERS": 2, "PRE": 2}, reach=["all-done"], bounds="1 writer, 2 readers, atomic granularity, preemptions 2")],
     "thorough": [H("ZZ_C01_Linearizable", params={"PRE": 1}, reach=["history-complete"], bounds="2x2 ops, cap 1, preemptions 1"),
                  H("ZZ_C01_Linearizable", params={"PRE": 0, "POOL": 1, "POOLMODE": 2}, reach=["history-complete"], bounds="entry pool on, adversarial reuse"),
@@ -222,7 +232,8 @@ PROPS["C02"] = {
     "outside_bound": ["bound on unaccounted entries while writes are in flight", "more than 2 clients / 2 ops", "preemption bound above 1"],
     "quick": [H("ZZ_C02_Program", params={"PRE": 0}, reach=["drained"], bounds="2 clients x 2 ops, cap 2, preemptions 0, costs symbolic"),
               H("ZZ_C02_Program", params={"PRE": 0, "WQ": 1, "OPS": 1}, reach=["drained"], bounds="one op per client with a write queue of one slot: writers block on the full queue (a writer that skipped the accounting instead would leave an untracked entry)"),
-              H("ZZ_C02_ExpiryWindow", params={"PRE": 1}, reach=["settled"], bounds="TTL extension vs expiry path at atomic granularity, preemptions 1")],
+              H("ZZ_C02_ExpiryWindow", params={"PRE": 1}, reach=["settled"], bounds="TTL extension vs expiry path at atomic granularity, preemptions 1"),
+              H("ZZ_C04_LateUpdate", reach=["three-ticks"], bounds="cost and TTL update processed after the new deadline: accounting stays exact")],
     "thorough": [H("ZZ_C02_Program", params={"PRE": 1}, reach=["drained"], bounds="2 clients x 2 ops, cap 2, preemptions 1"),
                  H("ZZ_C02_Program", params={"PRE": 0, "WQ": 1}, reach=["drained"], bounds="2 clients x 2 ops, one-slot write queue"),
                  H("ZZ_C02_Program", params={"PRE": 0, "CAP": 3}, reach=["drained"]),
